@@ -6,8 +6,8 @@ import datetime as dt
 
 ID = "C15"
 BACKENDS = ("py", "rs")
-GEN_MODULES = ("Tables", "Helpers", "RsHelpers")
-MIN_THEOREMS = 19
+GEN_MODULES = ("Tables", "Helpers", "RsHelpers", "LocalTime")
+MIN_THEOREMS = 26
 RULE = ("ops: isleap/islong/diy for every year 1..9999; weekday/getters on dates (quick: every date of 12 pattern years, "
         "every month start/end of every year, random dates; thorough: all 3,652,059 dates); localtime on day boundaries "
         "-1s/0/+1s and random seconds x offsets -86399..86399 over years 1..9999, plus the chunk boundaries of the algorithm (every century "
@@ -18,7 +18,7 @@ RULE = ("ops: isleap/islong/diy for every year 1..9999; weekday/getters on dates
 EXHAUSTIVE = {"quick": False, "thorough": True}
 TRUSTED = [
     "Gen.Helpers/Gen.Tables are regenerated from _helpers.py, date.py, constants.py, rust/src/constants.rs each run",
-    "Gen/RsHelpers.lean is regenerated from rust/src/helpers.rs (closed-form helpers) by tools/gen_rust.py each run; Model/LocalTime.lean is the hand model of local_time (both backends), tied by this correspondence run",
+    "Gen/RsHelpers.lean is regenerated from rust/src/helpers.rs (closed-form helpers) by tools/gen_rust.py each run; Gen/LocalTime.lean is regenerated statement by statement from _helpers.py::local_time and rust/src/helpers.rs::local_time by tools/gen_localtime.py each run (trusted reading: integer casts/.into()/.try_into().unwrap() = identity on unbounded Int, unix_time.floor()/math.floor = the integer argument, microsecond passed through, loops cut at 64 iterations with the cut proved immaterial); Model/LocalTime.lean is the hand model, tied to it by Props.C15.local_time_source_eq_model for all integers; the driver answers localtime requests from the regenerated definitions",
     "reference calendar Model/Cal.lean = CPython datetime algorithms; oracle = CPython datetime/calendar",
 ]
 ASSUMPTIONS = [
